@@ -610,6 +610,10 @@ func (u *Unit) evalUnary(st *State, x *ast.UnaryExpr) Value {
 		t := u.typeOf(x.X).Underlying().(*types.Chan).Elem()
 		v := u.freshValue(st, "recv", t)
 		u.chanRecvFacts(st, x.X, ch, v)
+		if u.inComm == 0 {
+			// a plain receive (c := <-ch, outside select): anchors "recv:<channel>" fire with the value bound to v
+			u.recvAnchor(st, x, &v)
+		}
 		return v
 	}
 	u.unsupported("unary %s", x.Op)
@@ -866,6 +870,19 @@ func (u *Unit) binop(st *State, op token.Token, l, r Value, t types.Type, pos to
 			}
 		}
 	}
+	// x & m for a literal mask m and a flag word x built from literals, |, &, &^ and conditionals (named
+	// intermediate values are looked through): decided by the shape of x
+	if op == token.AND {
+		for _, p := range [][2]Term{{a, b}, {b, a}} {
+			if m, ok := p[1].intVal(); ok && m.Sign() > 0 {
+				if _, lit := p[0].intVal(); !lit {
+					if r, ok := u.maskTerm(p[0], m, 0); ok {
+						return scalar(t, r)
+					}
+				}
+			}
+		}
+	}
 	// (x | c) & m == x & m when the literals c and m share no bit
 	if op == token.AND {
 		for _, p := range [][2]Term{{a, b}, {b, a}} {
@@ -881,7 +898,7 @@ func (u *Unit) binop(st *State, op token.Token, l, r Value, t types.Type, pos to
 			}
 			x, y := Term{strings.TrimSpace(p[0].S[i:j]), SInt}, Term{strings.TrimSpace(p[0].S[j:k]), SInt}
 			for _, q := range [][2]Term{{x, y}, {y, x}} {
-				if c, ok := q[1].intVal(); ok && c.Sign() >= 0 && new(big.Int).And(c, m).Sign() == 0 {
+				if zeroUnderMask(q[1], m) {
 					return u.binop(st, op, scalar(l.T, q[0]), scalar(r.T, p[1]), t, pos)
 				}
 			}
@@ -1041,6 +1058,122 @@ func (u *Unit) binop(st *State, op token.Token, l, r Value, t types.Type, pos to
 	}
 	u.abstract("bit operation %s is uninterpreted in arith int mode", op)
 	return scalar(t, res)
+}
+
+// zeroUnderMask: the term has none of the bits of the literal mask m set, by its shape: a literal that shares no
+// bit with m, z &^ c with m inside c, or z & c with c sharing no bit with m
+func zeroUnderMask(x Term, m *big.Int) bool {
+	if c, ok := x.intVal(); ok {
+		return c.Sign() >= 0 && new(big.Int).And(c, m).Sign() == 0
+	}
+	for _, f := range []string{"(bit_andnot ", "(bit_and "} {
+		if !strings.HasPrefix(x.S, f) {
+			continue
+		}
+		i := len(f)
+		j := skipSexp(x.S, i)
+		k := skipSexp(x.S, j)
+		if strings.TrimSpace(x.S[k:]) != ")" {
+			return false
+		}
+		c, ok := Term{strings.TrimSpace(x.S[j:k]), SInt}.intVal()
+		if !ok || c.Sign() < 0 {
+			return false
+		}
+		if f == "(bit_andnot " {
+			return new(big.Int).AndNot(m, c).Sign() == 0
+		}
+		return new(big.Int).And(c, m).Sign() == 0
+	}
+	return false
+}
+
+// maskTerm computes x & m (m a literal) from the shape of x, or reports that the shape does not decide it.
+// The result only contains literals and the conditions of conditionals in x.
+func (u *Unit) maskTerm(x Term, m *big.Int, depth int) (Term, bool) {
+	if depth > 24 {
+		return Term{}, false
+	}
+	if c, ok := x.intVal(); ok {
+		if c.Sign() < 0 {
+			return Term{}, false
+		}
+		return BigLit(new(big.Int).And(c, m)), true
+	}
+	if d, ok := u.defs[x.S]; ok {
+		return u.maskTerm(d, m, depth+1)
+	}
+	if c, a, b, ok := iteParts(x); ok {
+		ra, oka := u.maskTerm(a, m, depth+1)
+		if !oka {
+			return Term{}, false
+		}
+		rb, okb := u.maskTerm(b, m, depth+1)
+		if !okb {
+			return Term{}, false
+		}
+		if ra.S == rb.S {
+			return ra, true
+		}
+		return Ite(c, ra, rb), true
+	}
+	two := func(prefix string) (Term, Term, bool) {
+		if !strings.HasPrefix(x.S, prefix) {
+			return Term{}, Term{}, false
+		}
+		i := len(prefix)
+		j := skipSexp(x.S, i)
+		k := skipSexp(x.S, j)
+		if strings.TrimSpace(x.S[k:]) != ")" {
+			return Term{}, Term{}, false
+		}
+		return Term{strings.TrimSpace(x.S[i:j]), SInt}, Term{strings.TrimSpace(x.S[j:k]), SInt}, true
+	}
+	if y, z, ok := two("(bit_or "); ok {
+		ry, oky := u.maskTerm(y, m, depth+1)
+		rz, okz := u.maskTerm(z, m, depth+1)
+		if !oky || !okz {
+			return Term{}, false
+		}
+		cy, ly := ry.intVal()
+		cz, lz := rz.intVal()
+		switch {
+		case ly && lz:
+			return BigLit(new(big.Int).Or(cy, cz)), true
+		case ly && cy.Sign() == 0:
+			return rz, true
+		case lz && cz.Sign() == 0:
+			return ry, true
+		}
+		return Term{}, false
+	}
+	if y, z, ok := two("(bit_andnot "); ok {
+		if c, lit := z.intVal(); lit && c.Sign() >= 0 {
+			rest := new(big.Int).AndNot(m, c)
+			if rest.Sign() == 0 {
+				return IntLit(0), true
+			}
+			if rest.Cmp(m) == 0 {
+				return u.maskTerm(y, m, depth+1)
+			}
+		}
+		return Term{}, false
+	}
+	if y, z, ok := two("(bit_and "); ok {
+		for _, q := range [][2]Term{{y, z}, {z, y}} {
+			if c, lit := q[1].intVal(); lit && c.Sign() >= 0 {
+				both := new(big.Int).And(m, c)
+				if both.Sign() == 0 {
+					return IntLit(0), true
+				}
+				if both.Cmp(m) == 0 {
+					return u.maskTerm(q[0], m, depth+1)
+				}
+			}
+		}
+		return Term{}, false
+	}
+	return Term{}, false
 }
 
 func (u *Unit) bvop(st *State, op token.Token, l, r Value, t types.Type) Value {
